@@ -26,6 +26,7 @@ def configs():
         ("PcaChain", {}), ("PcaChain", {"bounds": True, "T": 2.0}),
         ("HamiltonianChain", {}), ("HamiltonianChain", {"bounds": True, "mass": "vector"}),
         ("HamiltonianChain", {"mass": "matrix", "T": 2.0}), ("HamiltonianChain", {"mass": "scalar", "nograd": True}),
+        ("HamiltonianChain", {"compressed": True, "bounds": True, "T": 4.0}),
         ("EnsembleSampler", {}), ("EnsembleSampler", {"bounds": True}),
     ]
 
@@ -208,7 +209,10 @@ def run(tier):
                                     live.take_step()
                         elif op == "save":
                             try:
-                                live.save(fname)
+                                if opt.get("compressed"):
+                                    live.save(fname, compressed=True)
+                                else:
+                                    live.save(fname)
                                 saved = True
                             except Exception as ex:
                                 ck.violation("SaveEnabledAlways: save() works at every point of a sampler's life",
